@@ -3,7 +3,10 @@ Proof: coq/C19 (status mapping over all snapshots, job-id injectivity, header-sa
 life cycle of a job in C19's own abstraction AND over every history of the C16 queue model: QueueInv.v, ProofsCompose.v).  Tie: (a) exhaustive product of snapshot field shapes through the extracted model vs
 the real Application.do_render_status, (b) random job histories on a real qs.jobs.workq behind QPlugin,
 (c) exhaustive pass over all code points for the Unicode facts the theorems assume.
-Search: the property's own oracle on the real responses given the live job objects; it runs even when the translator
+       Worker connections (one QPlugin handler per connection; pull/finish through a connection; disconnect = QPlugin.shutdown):
+       coq/C19/ModelConn.v + ProofsConn.v - closing a connection never changes which job object an id stands for.
+Search: the property's own oracle on the real responses given the live job objects (the LATEST incarnation registered under
+the id, told apart by object identity - not whatever the queue's table serves); it runs even when the translator
 or the proofs fail (monitor-only), and every hit is settled: re-run alone in a fresh process, delta-debugged."""
 import concurrent.futures
 import itertools
@@ -105,12 +108,62 @@ def special_cps():
     return _SPECIAL
 
 
+_TRANSLIT = []
+SEPARATOR_NAMES = ("SPACE", "SEMICOLON", "COLON", "QUOTATION", "QUOTE", "APOSTROPHE", "COMMA", "PRIME")
+
+
+def translit_cps():
+    """Printable code points that have NO separator in their NFKD but that a transliteration to ASCII (a fallback table,
+    `unidecode`, an `errors=` handler of the encoder ..) would plausibly spell with a separator-class ASCII character:
+    every punctuation mark (General_Category Pc Pd Ps Pe Pi Pf Po: all quotation marks, apostrophes, guillemets, dashes,
+    brackets, fullwidth/small forms), every space/line separator (Z*), modifier symbols and letters (Sk, Lm: accents,
+    primes, okina, modifier apostrophe/colon), and whatever the Unicode character NAME calls a space, (semi)colon,
+    comma, quote(ation mark), apostrophe or prime.  Computed from unicodedata at run time, never listed by hand."""
+    if not _TRANSLIT:
+        for c in range(0x110000):
+            if c in cc.CONTROL or 0xD800 <= c <= 0xDFFF or c < 128:
+                continue
+            cat = unicodedata.category(chr(c))
+            if cat[0] in "PZ" or cat in ("Sk", "Lm") or any(x in unicodedata.name(chr(c), "") for x in SEPARATOR_NAMES):
+                _TRANSLIT.append(c)
+    return _TRANSLIT
+
+
+WORDS = ["Gulliver", "s", "Travels", "The", "Great", "War", "Les", "Mis\u00e9rables", "tome", "1", "Stra\u00dfe", "\u00c6r\u00f8", "l",
+         "\u65e5\u672c", "Mot\u00f6rhead", "d", "O", "Neill", "Qu", "ran"]
+
+
+def rand_phrase(rng):
+    """Words of a title joined / wrapped by marks drawn from translit_cps and special_cps: possessive and elision
+    (X's, l'X), quoted words (open X close), dashes and punctuation between words."""
+    marks = translit_cps() if rng.random() < 0.8 else special_cps()
+    out = []
+    for i in range(rng.choice([1, 2, 2, 3, 4])):
+        wd = rng.choice(WORDS)
+        m = chr(rng.choice(marks))
+        r = rng.random()
+        if r < 0.3:
+            wd = wd + m + rng.choice(["s", "t", "d", ""])                 # Gulliver's
+        elif r < 0.6:
+            wd = m + wd + rng.choice([m, chr(rng.choice(marks)), ""])     # "Great"
+        elif r < 0.75:
+            wd = rng.choice(["l", "d", "O", "Qu"]) + m + wd               # l'X
+        out.append(wd)
+        if rng.random() < 0.3:
+            out.append(chr(rng.choice(marks)))                            # X - Y
+    return rng.choice([" ", " ", " ", ""]).join(out)
+
+
 def rand_name(rng):
+    if rng.random() < 0.35:
+        return rand_phrase(rng)
     k = rng.choice([0, 1, 2, 3, 5, 8, 13])
     out = []
     for _ in range(k):
         r = rng.random()
-        if r < 0.2:
+        if r < 0.15:
+            out.append(chr(rng.choice(translit_cps())))
+        elif r < 0.3:
             out.append(chr(rng.choice(special_cps())))
         elif r < 0.6:
             out.append(rng.choice(POOL))
@@ -584,7 +637,11 @@ def check(run):
                 "result{absent,None,{},non-dict,partial dict,full dict with 11 suggested_filename shapes} x writer{5 known+1 unknown} with the "
                 "makezip snapshot cycling over 7 shapes, plus done x error x info x makezip in full, absent render job, decoy jobs of other "
                 "writers/collections, and random printable-Unicode filenames (20% of the characters drawn from the code points whose NFKD "
-                "yields non-alphanumeric ASCII, computed from unicodedata); every case is its own collection id; (b) op sequences on a real "
+                "yields non-alphanumeric ASCII, computed from unicodedata, 15% from the TRANSLITERATION-PRONE code points: every punctuation "
+                "mark (General_Category P*: all quotation marks, apostrophes, guillemets, dashes, brackets, fullwidth/small forms), Z*, Sk, Lm "
+                "and every code point whose Unicode name mentions space/colon/semicolon/comma/quote/apostrophe/prime, ~1.5k code points "
+                "computed from unicodedata at run time; 35% of the names are PHRASES: title words joined/wrapped by such marks -- possessive "
+                "X's, elision l'X, quoted \"X\", X - Y); every case is its own collection id; (b) op sequences on a real "
                 "workq: random ones (render, pull, setinfo, finish ok/err/malformed, kill, clock tick + handletimeouts, dropdead, push, dropjobs, "
                 "waitjobs, queue restart) and life-cycle ones (2-4 render rounds of one collection: fetch, render, finish ok/err/kill/timeout, "
                 "then expiry by the watchdog after the ttl / restart / drop, then re-render); status polled for 2 collections x all writers "
@@ -614,7 +671,7 @@ def check(run):
                 "failed/killed/timed out at the end -- is a violation, reported against the state at the END of the request. Such hits are "
                 "minimised: earlier interleaved requests flattened to plain ops, ops delta-debugged, injected events reduced to a 1-minimal set, "
                 "each moved to the smallest k that still fails; (c) all 0x110000 code points for the Unicode facts, get_content_disposition on "
-                "every 97th (thorough: every) code point and on every code point whose NFKD contains ASCII in 5 contexts. distinct = distinct "
+                "every 97th (thorough: every) code point and on every code point whose NFKD contains ASCII or that is transliteration-prone, in 5 contexts. distinct = distinct "
                 "(snapshots, writer) resp. (history, step, collection, writer) resp. (code point, context); non-trivial = render job present, "
                 "or makezip job present, i.e. not the empty queue; an interleaved request is distinct by (history, step, states during the request, answer) "
                 "and non-trivial when an event was injected before its 2nd or a later RPC. Oracle hits are re-run alone in a fresh process and delta-debugged "
@@ -632,6 +689,10 @@ def check(run):
                    "blocking qpull/qwait excepted, which the harness never lets block)",
                    "coq/C19/ModelReq.v: status_req / exec, the status command with its reads explicit (hand-written; tied to the real request by "
                    "answer AND sequence of job ids asked on every interleaved request and -- the id sequence -- on every snapshot case)",
+                   "coq/C19/ModelConn.v: hand-written model of the per-connection handlers (running_jobs, shutdown -> pushjob overwriting "
+                   "id2job) at the level of job incarnations; tied to qserve.py by the shape obligation on QPlugin.shutdown and, on the real "
+                   "code, by the harness: it tells job objects apart by identity and reports when the queue's table serves another object "
+                   "than the one registered last under an id (histories with disconnects: worker family, random, life-cycle)",
                    "C19_reachable / C19_status_after_*: coq/C16/Model.v, the queue model of C16/C17/C18 (tied to the real qs code by THEIR "
                    "differential runs, not by this check), and the decoding of its value codes into JSON values (Section variables; only "
                    "`exactly error code 0 is falsy` is assumed)"]
@@ -657,6 +718,13 @@ def check(run):
     # not part of the translator on purpose: when this fails the model still runs (ties + monitor), the verdict is fail-closed
     run.obligation("do_render_status has exactly the two queue reads the models have (render job, then the fetch job)",
                    sites == ["{collection_id}:render-{writer}", "{collection_id}:makezip"], "qinfo call sites in source order: %r" % (sites,))
+    try:
+        shape = c19_writers.shutdown_shape(open(os.path.join(src, "qs", "qserve.py"), encoding="utf8").read())
+    except Exception as e:
+        shape = "not readable: %s" % e
+    # like the one above: fail-closed for the verdict, the histories with worker connections still run
+    run.obligation("QPlugin.shutdown has the shape coq/C19/ModelConn.v models (dec_repo: loop over its own running_jobs, skip a job by "
+                   "ITS OWN done flag, pushjob the others)", shape == c19_writers.SHUTDOWN_EXPECTED, "qserve.py: %s" % (shape,))
     model = None
     if "writers" in gen_out:
         wt = gen_out["writers"]
@@ -947,6 +1015,10 @@ def _check(run, src, model, writers, writers_tbl):
                    not u["bad_nfkd"] and not u["bad_str"], "unidata %s; violating code points: %r %r" % (u["unidata_version"], u["bad_nfkd"][:5], u["bad_str"][:5]))
     run.obligation("the filename generator's set of code points whose NFKD yields non-alphanumeric ASCII == the set the running interpreter computes",
                    u["special"] == special_cps(), "%d vs %d code points" % (len(u["special"]), len(special_cps())))
+    run.obligation("the filename generator's set of transliteration-prone code points (punctuation, separators, modifier symbols/letters, "
+                   "separator words in the character name) == the set the running interpreter computes; every one of them went through "
+                   "get_content_disposition in 5 contexts", u.get("translit") == translit_cps() and
+                   {c for c, _x, _y in u["cds"]} >= set(translit_cps()), "%d vs %d code points" % (len(u.get("translit") or []), len(translit_cps())))
     if model is not None:
         # the model's whitespace table == str.isspace on every code point: ask the model to strip [c]
         ws_model = [int(x) for x in model.batch(["SPACES"])[0].split()]
@@ -981,7 +1053,8 @@ def _check(run, src, model, writers, writers_tbl):
     run.coverage["exhaustive"] = False
     run.coverage["exhaustive_part"] = ("snapshot shape product (done x error x info x result x writer) is enumerated completely; NFKD/isspace facts over "
                                        "all 0x110000 code points; every code point whose NFKD contains an ASCII character goes through "
-                                       "get_content_disposition in 5 contexts; histories and longer filenames are sampled")
+                                       "get_content_disposition in 5 contexts, and so does every transliteration-prone code point (P*, Z*, Sk, Lm, separator "
+                                       "words in the name); histories and longer filenames are sampled")
     run.coverage["input_distribution"] = dist
     run.coverage["unidata_version"] = u["unidata_version"]
 
